@@ -514,6 +514,7 @@ func exploreC13Invariance(t *testing.T, seed uint64, idx int, tier string, sink 
 	addOp := func(o Op) { o.ID = id; id++; pl.Ops = append(pl.Ops, o) }
 	n := r.Range(1, 4)
 	cur, curProf := tgt.Clone(), prof.Clone()
+	var sibs []*EntitySpec
 	for i := 0; i < n; i++ {
 		switch r.Intn(8) {
 		case 6: // another entity appears in the directory (same profile, same issuer): walk order and
@@ -521,6 +522,7 @@ func exploreC13Invariance(t *testing.T, seed uint64, idx int, tier string, sink 
 			sib := &EntitySpec{ID: fmt.Sprintf("s%d", i), Name: Pick(r, []string{"aaa", "sibling", "zzz", "t0", "target2"}) + fmt.Sprint(i), Ext: "yaml", Issuer: "root-a",
 				Subject: genSubject(r, "s"), Profile: cur.Profile, Exts: genExts(r, 3, true), Dir: Pick(r, dirPool)}
 			addOp(Op{K: "put-ent", Spec: sib, Label: "add-sibling"})
+			sibs = append(sibs, sib)
 			did = append(did, "add-sibling")
 		case 7: // another profile and unrelated files appear
 			np := genSimpleProfile(r, fmt.Sprintf("other%d", i))
@@ -563,6 +565,14 @@ func exploreC13Invariance(t *testing.T, seed uint64, idx int, tier string, sink 
 					addOp(Op{K: "rm-prof", Arg: curProf.File})
 				}
 				addOp(Op{K: "put-ent", Spec: nt, Label: "profile-rename"})
+				for j, sb := range sibs {
+					if sb.Profile != "" {
+						ns := sb.Clone()
+						ns.Profile = np.Name
+						sibs[j] = ns
+						addOp(Op{K: "put-ent", Spec: ns, Label: "profile-rename"})
+					}
+				}
 				cur, curProf = nt, np
 				did = append(did, "profile-rename")
 			}
